@@ -247,6 +247,20 @@ def check_hill(R, F, inp):
         hh = h.hill
         if not (hh == h) or str(hh) != str(h):
             F.add("hill:idempotent", ident, "taking the Hill form twice changes the formula", inp, str(hh), str(h))
+        # the Hill form is a function of the current atoms: operations applied AFTER a Hill form was taken
+        # (n*f, f+g, f+=g) must be reflected by the Hill forms of their results
+        R.ok(3)
+        for nm, g2, want in (("n*f", 3 * f, {a: 3 * n for a, n in atoms.items()}),
+                             ("f+f", f + f, {a: 2 * n for a, n in atoms.items()})):
+            if g2.hill.atoms != want:
+                F.add("hill:stale_after:" + nm, ident, "after f.hill was taken, the Hill form of %s does not have the atoms of %s"
+                      % (nm, nm), inp, {name_of(a): n for a, n in g2.hill.atoms.items()}, {name_of(a): n for a, n in want.items()})
+        f3 = formula(struct)
+        _ = f3.hill
+        f3 += f
+        if f3.hill.atoms != {a: 2 * n for a, n in atoms.items()}:
+            F.add("hill:stale_after:f+=g", ident, "after f.hill was taken, f+=g is not reflected by f.hill", inp,
+                  {name_of(a): n for a, n in f3.hill.atoms.items()}, None)
         # canonicity
         for vrep in inp.get("variants", []):
             g = struct_from_repr(vrep) if isinstance(vrep, list) else None
